@@ -102,6 +102,10 @@ namespace verif48 {
     //! list of accepted steps (t, dt) and of all attempts
     mutable std::vector<std::pair<double, double>> attempts;
     mutable std::vector<std::pair<double, double>> outputs;
+    //! for each attempt: was it followed by an intermediate output (= accepted, not the last step)
+    mutable std::vector<char> output_after;
+    //! additional, state dependent, convergence condition (C50: non finite unknowns do not converge)
+    std::function<bool(mtest::StudyCurrentState&)> extra_convergence;
     //! called at the very beginning of every attempt (C50: leak detection)
     std::function<void(mtest::StudyCurrentState&, real, real)> on_attempt_start;
     /*! physics hooks (C50): called with the real state */
@@ -132,6 +136,7 @@ namespace verif48 {
       call = 0;
       if (on_attempt_start) on_attempt_start(s, t, dt);
       attempts.push_back({t, dt});
+      output_after.push_back(0);
       log << " a " << hex(t) << " " << hex(dt);
       if (cur.kind == 4) {
         return {false, cur.factor};
@@ -174,7 +179,7 @@ namespace verif48 {
       return {true, cur.factor};
     }
     real getErrorNorm(const Vector&) const override { return 0; }
-    bool checkConvergence(mtest::StudyCurrentState&,
+    bool checkConvergence(mtest::StudyCurrentState& scs_,
                           const Vector&,
                           const Vector&,
                           const mtest::SolverOptions&,
@@ -183,6 +188,7 @@ namespace verif48 {
                           const real) const override {
       if (cur.kind == 2) return false;
       if (late_convergence && (cur.kind == 0) && (call < cur.at)) return false;
+      if (extra_convergence && !extra_convergence(scs_)) return false;
       return true;
     }
     std::vector<std::string> getFailedCriteriaDiagnostic(const mtest::StudyCurrentState&,
@@ -204,6 +210,7 @@ namespace verif48 {
     void setModellingHypothesis(const std::string&) override {}
     void printOutput(const real t, const mtest::StudyCurrentState&, const bool) const override {
       outputs.push_back({t, 0});
+      if (!output_after.empty()) output_after.back() = 1;
       log << " o " << hex(t);
     }
     void setDefaultModellingHypothesis() override {}
